@@ -283,15 +283,17 @@ class CallGraph:
 
     # --------------------------------------------------------- reachability
     def reachable(self, entries):
+        """Breadth-first, so parent pointers give shortest call paths."""
+        from collections import deque
         seen = {}
-        work = []
+        work = deque()
         for e in entries:
             if e not in seen:
                 seen[e] = None
                 work.append(e)
         while work:
-            f = work.pop()
-            for t in self.edges.get(f, ()):
+            f = work.popleft()
+            for t in sorted(self.edges.get(f, ()), key=lambda x: x.fq):
                 tt = t
                 # a nested function's analysis is folded into its parent
                 while tt.parent is not None:
